@@ -258,38 +258,62 @@ def _loadtxt_facts(repo, template):
         raise TranslatorError("marker is not comments + literal")
     marker = _const_str(t.right)
     body = mk[0].body
-    src = {}
-    for s in body:
-        if isinstance(s, ast.Assign) and len(s.targets) == 1 and isinstance(s.targets[0], ast.Name):
-            src.setdefault(s.targets[0].id, []).append(s.value)
-    srch = src.get("match", [None])[0]
-    if not (isinstance(srch, ast.Call) and _chain(srch.func) == "re.search" and len(srch.args) == 2
-            and _chain(srch.args[0]) == "HEADER_REGEX" and _chain(srch.args[1]) == "header"):
-        raise TranslatorError("re.search(HEADER_REGEX, header) not recognised")
-    if not any(isinstance(s, ast.Assert) for s in body):
-        raise TranslatorError("a failed match is not an assertion")
+    # data flow inside the block, independent of the local variable names
+    assigned = {}                       # id(value node) -> target name
+    for st in body:
+        if isinstance(st, ast.Assign) and len(st.targets) == 1 and isinstance(st.targets[0], ast.Name):
+            assigned[id(st.value)] = st.targets[0].id
+    calls = [n for st in body for n in ast.walk(st) if isinstance(n, ast.Call)]
 
-    def group_split(e, idx):
-        return (isinstance(e, ast.Call) and isinstance(e.func, ast.Attribute) and e.func.attr == "split"
-                and len(e.args) == 1 and _const_str(e.args[0]) is not None
-                and isinstance(e.func.value, ast.Subscript) and _chain(e.func.value.value) == "groups"
-                and isinstance(e.func.value.slice, ast.Constant) and e.func.value.slice.value == idx)
-    seps = []
-    n = src.get("names", [None])[0]
-    if not (isinstance(n, ast.Call) and _chain(n.func) == "tuple" and len(n.args) == 1 and group_split(n.args[0], 0)):
-        raise TranslatorError("names = tuple(groups[0].split(sep)) not recognised")
-    seps.append(_const_str(n.args[0].args[0]))
-    k = src.get("keys", [None])[0]
-    if not group_split(k, 1):
-        raise TranslatorError("keys = groups[1].split(sep) not recognised")
-    seps.append(_const_str(k.args[0]))
-    sh = src.get("shape", [None])[0]
-    if not (isinstance(sh, ast.ListComp) and len(sh.generators) == 1 and group_split(sh.generators[0].iter, 2)
-            and isinstance(sh.elt, ast.Call) and _chain(sh.elt.func) == "int" and len(sh.elt.args) == 1
+    def var_of(node):
+        """name the value of `node` is bound to (directly, or through tuple()/list())"""
+        if id(node) in assigned:
+            return assigned[id(node)]
+        for c in calls:
+            if _chain(c.func) in ("tuple", "list") and len(c.args) == 1 and c.args[0] is node and id(c) in assigned:
+                return assigned[id(c)]
+        return None
+
+    srch = [c for c in calls if (_chain(c.func) == "re.search" and len(c.args) == 2 and _chain(c.args[0]) == "HEADER_REGEX"
+                                 and _chain(c.args[1]) == "header")
+            or (_chain(c.func) == "HEADER_REGEX.search" and len(c.args) == 1 and _chain(c.args[0]) == "header")]
+    if len(srch) != 1 or var_of(srch[0]) is None:
+        raise TranslatorError("re.search(HEADER_REGEX, header) not recognised")
+    mvar = var_of(srch[0])
+    asserts = [st for st in body if isinstance(st, ast.Assert)]
+    if not any(isinstance(a.test, ast.Compare) and _chain(a.test.left) == mvar and len(a.test.ops) == 1
+               and isinstance(a.test.ops[0], ast.IsNot) and isinstance(a.test.comparators[0], ast.Constant)
+               and a.test.comparators[0].value is None for a in asserts):
+        raise TranslatorError("a failed match is not an assertion")
+    grp = [c for c in calls if _chain(c.func) == f"{mvar}.groups" and not c.args]
+    if len(grp) != 1 or var_of(grp[0]) is None:
+        raise TranslatorError("match.groups() not recognised")
+    gvar = var_of(grp[0])
+    splits = {}
+    for c in calls:
+        if (isinstance(c.func, ast.Attribute) and c.func.attr == "split" and len(c.args) == 1 and not c.keywords
+                and _const_str(c.args[0]) is not None and isinstance(c.func.value, ast.Subscript)
+                and _chain(c.func.value.value) == gvar and isinstance(c.func.value.slice, ast.Constant)
+                and isinstance(c.func.value.slice.value, int)):
+            if c.func.value.slice.value in splits:
+                raise TranslatorError("a regex group is split twice")
+            splits[c.func.value.slice.value] = c
+    if set(splits) != {0, 1, 2}:
+        raise TranslatorError(f"splits of the groups {sorted(splits)} (expected 0, 1, 2)")
+    seps = [_const_str(splits[i].args[0]) for i in (0, 1, 2)]
+    nvar, kvar = var_of(splits[0]), var_of(splits[1])
+    if nvar is None or kvar is None:
+        raise TranslatorError("names / keys are not bound to the split of groups 0 / 1")
+    comps = [n for st in body for n in ast.walk(st) if isinstance(n, ast.ListComp) and len(n.generators) == 1
+             and n.generators[0].iter is splits[2]]
+    if len(comps) != 1 or var_of(comps[0]) is None:
+        raise TranslatorError("shape = [int(idx) for idx in groups[2].split(sep) ...] not recognised")
+    sh = comps[0]
+    svar = var_of(sh)
+    if not (isinstance(sh.elt, ast.Call) and _chain(sh.elt.func) == "int" and len(sh.elt.args) == 1 and not sh.elt.keywords
             and isinstance(sh.elt.args[0], ast.Name) and isinstance(sh.generators[0].target, ast.Name)
             and sh.elt.args[0].id == sh.generators[0].target.id):
-        raise TranslatorError("shape = [int(idx) for idx in groups[2].split(sep) ...] not recognised")
-    seps.append(_const_str(sh.generators[0].iter.args[0]))
+        raise TranslatorError("shape elements are not int(piece)")
     ifs = sh.generators[0].ifs
     if not ifs:
         filt = False
@@ -300,26 +324,49 @@ def _loadtxt_facts(repo, template):
     if len(set(seps)) != 1 or len(seps[0]) != 1:
         raise TranslatorError(f"split separators {seps}")
     # ---- struct conversion ------------------------------------------------------------------
-    st = src.get("struct", [None])[0]
-    if not (isinstance(st, ast.Call) and _chain(st.func) == "unstructured_to_structured" and len(st.args) == 2
-            and _chain(st.args[1]) == "dtype"):
+    lt = [st for st in fn.body if isinstance(st, ast.Assign) and isinstance(st.value, ast.Call)
+          and _chain(st.value.func) == "numpy.loadtxt" and len(st.targets) == 1 and isinstance(st.targets[0], ast.Name)]
+    if len(lt) != 1:
+        raise TranslatorError("array = numpy.loadtxt(...) not recognised")
+    avar = lt[0].targets[0].id
+    dts = [c for c in calls if _chain(c.func) == "numpy.dtype" and len(c.args) == 1 and isinstance(c.args[0], ast.ListComp)]
+    if len(dts) != 1 or var_of(dts[0]) is None:
+        raise TranslatorError("dtype = numpy.dtype([(key, array.dtype) for key in keys]) not recognised")
+    dc = dts[0].args[0]
+    if not (len(dc.generators) == 1 and _chain(dc.generators[0].iter) == kvar and not dc.generators[0].ifs
+            and isinstance(dc.elt, ast.Tuple) and len(dc.elt.elts) == 2 and isinstance(dc.generators[0].target, ast.Name)
+            and _chain(dc.elt.elts[0]) == dc.generators[0].target.id and _chain(dc.elt.elts[1]) == f"{avar}.dtype"):
+        raise TranslatorError("field list of the struct dtype not recognised")
+    dvar = var_of(dts[0])
+    sts = [c for c in calls if _chain(c.func) in ("unstructured_to_structured", "numpy.lib.recfunctions.unstructured_to_structured")]
+    if len(sts) != 1 or len(sts[0].args) != 2 or sts[0].keywords or _chain(sts[0].args[1]) != dvar or var_of(sts[0]) is None:
         raise TranslatorError("struct = unstructured_to_structured(<array>, dtype) not recognised")
-    a = st.args[0]
-    if _chain(a) == "array":
+    a = sts[0].args[0]
+    if _chain(a) == avar:
         ravel = False
-    elif (isinstance(a, ast.Call) and _chain(a.func) == "array.reshape" and len(a.args) == 2
+    elif (isinstance(a, ast.Call) and _chain(a.func) == f"{avar}.reshape" and len(a.args) == 2 and not a.keywords
           and isinstance(a.args[0], ast.UnaryOp) and isinstance(a.args[0].op, ast.USub)
           and isinstance(a.args[0].operand, ast.Constant) and a.args[0].operand.value == 1
-          and isinstance(a.args[1], ast.Call) and _chain(a.args[1].func) == "len" and _chain(a.args[1].args[0]) == "keys"):
+          and isinstance(a.args[1], ast.Call) and _chain(a.args[1].func) == "len" and len(a.args[1].args) == 1
+          and _chain(a.args[1].args[0]) == kvar):
         ravel = True
     else:
         raise TranslatorError("first argument of unstructured_to_structured not recognised")
-    arr = src.get("array", [])
-    if not (len(arr) == 2 and isinstance(arr[0], ast.Call) and _chain(arr[0].func) == "numpoly.polynomial"
-            and _chain(arr[0].args[0]) == "struct" and any(kw.arg == "names" and _chain(kw.value) == "names" for kw in arr[0].keywords)
-            and isinstance(arr[1], ast.Call) and _chain(arr[1].func) == "numpoly.reshape"
-            and [_chain(x) for x in arr[1].args] == ["array", "shape"]):
-        raise TranslatorError("polynomial(struct, names=names) / reshape(array, shape) not recognised")
+    stvar = var_of(sts[0])
+    pol = [c for c in calls if _chain(c.func) in ("numpoly.polynomial", "numpoly.aspolynomial")]
+    if not (len(pol) == 1 and len(pol[0].args) == 1 and _chain(pol[0].args[0]) == stvar
+            and [kw.arg for kw in pol[0].keywords] == ["names"] and _chain(pol[0].keywords[0].value) == nvar
+            and var_of(pol[0]) is not None):
+        raise TranslatorError("polynomial(struct, names=names) not recognised")
+    rsh = [c for c in calls if _chain(c.func) in ("numpoly.reshape", f"{var_of(pol[0])}.reshape") and c is not sts[0].args[0]]
+    if not (len(rsh) == 1 and not rsh[0].keywords
+            and ([_chain(x) for x in rsh[0].args] == [var_of(pol[0]), svar] if _chain(rsh[0].func) == "numpoly.reshape"
+                 else [_chain(x) for x in rsh[0].args] == [svar])
+            and var_of(rsh[0]) is not None):
+        raise TranslatorError("reshape(array, shape) not recognised")
+    rets = [st for st in fn.body if isinstance(st, ast.Return)]
+    if len(rets) != 1 or _chain(rets[0].value) != var_of(rsh[0]) or var_of(rsh[0]) != avar:
+        raise TranslatorError("the reshaped polynomial is not what loadtxt returns")
     # numpy.loadtxt is called with ndmin passed through (default 0: squeeze)
     call = _walk(fn, lambda n: isinstance(n, ast.Call) and _chain(n.func) == "numpy.loadtxt")
     if len(call) != 1 or _chain(call[0].args[0]) != "fname":
